@@ -67,7 +67,7 @@ type witness struct {
 func TestCheck(t *testing.T) {
 	vkit.Run(t, "C19", "fault_enumeration", func(r *vkit.R) {
 		r.Rule("sequences: initial Load, then 3..12 of save (fresh object; Get + modify the returned object in place + Save of that pointer; modify an object handed to an earlier Save + Save it again) / delete / delete-upstream / flush / periodic tick / stop (a stop or flush that returns an error is called again up to 3 times, as the limiter does) over 1..3 upstreams of the store's shard and 1..2 of the other shard " +
-			"(3 condition names per upstream so that operations collide; saves of other-shard conditions handed to this store; saves through the other shard's own store), on top of 0..4 pre-existing conditions; " +
+			"(3 condition names per upstream so that operations collide; saves of other-shard conditions handed to this store; saves through the other shard's own store), on top of 0..4 pre-existing conditions; in a third of the sequences the server that takes the shard over at the end gains the other shard first, during the history, and loads both through one client; " +
 			"both store modes (write-through = syncPeriod 0; periodic = syncPeriod 1h, flush goroutine replaced by explicit ticks). " +
 			"Each sequence runs once without fault to count its API calls c, then once for EVERY position p<=c and EVERY fault kind the API can produce for the verb at p: " +
 			"not-found (third party deleted the target), conflict (update/delete: version bumped; create: third party created first), transient 503 (no effect), lost response (effect + timeout), crash before, crash after. " +
@@ -285,6 +285,10 @@ func judge(r *vkit.R, seq sequence, fs []fault, res runResult, inBaseline map[st
 			// flush, periodic tick and stop share the flush code, in both modes
 			// (the oracle that notices it depends on what else happens to the condition afterwards: not part of the signature)
 			sig = fmt.Sprintf("C19/flush-not-atomic/%s-concurrent-with-flush", inner)
+		} else if strings.HasPrefix(f.Oracle, "load-") {
+			// what a NEW store loads is compared with what the API holds at that moment: the faults of the old holder's
+			// history are not part of the cause
+			sig += "fault=none"
 		} else if k == noFault || inBaseline[f.Oracle+"|"+f.Name] || (f.Oracle == "acknowledged-save-not-persisted-at-ack" && !res.hitSaveOf(f.Name)) {
 			// (found at the acknowledgement itself: a fault that hit some other operation is not part of the cause)
 			sig += "fault=none"
@@ -302,6 +306,9 @@ func judge(r *vkit.R, seq sequence, fs []fault, res runResult, inBaseline map[st
 		}
 		if res.StorePanic != nil {
 			sig += "/store-panicked"
+		}
+		if res.NewServerFirst && strings.HasPrefix(f.Oracle, "load-") {
+			sig += "/same-server-gained-other-shard-first"
 		}
 		if f.Shape != "" && f.Shape != "save" && (f.Oracle == "acknowledged-condition-not-persisted" || f.Oracle == "acknowledged-save-not-persisted-at-ack") && !retried {
 			sig += "/last-save=" + f.Shape // the acknowledged save handed the store an object it shares with the caller
